@@ -23,10 +23,11 @@ import (
 // Writer
 // ---------------------------------------------------------------------------------------------
 
-var wAlphabet = []string{"apply-bsum", "apply-size7", "apply-conc2", "apply-legacy", "write7", "writeB1", "write-nil", "readfrom10", "flush", "close", "reset"}
+var wAlphabet = []string{"apply-bsum", "apply-size7", "apply-conc2", "apply-legacy", "apply-nocsum", "apply-level1", "write7", "writeB1", "write-nil", "readfrom10", "flush", "close", "reset"}
 
 type wModel struct {
 	bsum, size7, conc2, legacy bool
+	nocsum, level1             bool
 	phase                      string // new | open | closed | failed
 	accepted                   []byte
 	sink                       int
@@ -39,7 +40,9 @@ type wStepObs struct {
 	sinkLen []int // length of every sink after the call
 }
 
-var bigZeros = make([]byte, 65537)
+// bigZeros is the B+1-byte payload. (The name is historical: it is text-like so that the
+// compression level is visible in the emitted bytes, which the differential Reset oracle compares.)
+var bigZeros = srcSpec{Fam: "S4", Len: 65537, Content: "text"}.build(nil)
 var scratchB1 = make([]byte, 65537)
 
 type wRun struct {
@@ -82,6 +85,10 @@ func writerBody(hist []int, pre []lz4.Option, run *wRun) func() {
 					o.err = w.Apply(lz4.ConcurrencyOption(2))
 				case "apply-legacy":
 					o.err = w.Apply(lz4.LegacyOption(true))
+				case "apply-nocsum":
+					o.err = w.Apply(lz4.ChecksumOption(false))
+				case "apply-level1":
+					o.err = w.Apply(lz4.CompressionLevelOption(lz4.Level1))
 				case "write7":
 					// the caller reuses its buffer as soon as Write has returned
 					buf := []byte("abcdefg")
@@ -226,6 +233,10 @@ func checkWriter(hist []int, run *wRun, x *verifsched.Execution) (sig, what stri
 					m.conc2 = true
 				case "apply-legacy":
 					m.legacy = true
+				case "apply-nocsum":
+					m.nocsum = true
+				case "apply-level1":
+					m.level1 = true
 				}
 			} else {
 				if o.err == nil {
@@ -316,6 +327,9 @@ func checkWriter(hist []int, run *wRun, x *verifsched.Execution) (sig, what stri
 				if p.BSCode != 4 {
 					return "Writer: BlockSizeOption is not reflected by the frame (persistence across Reset?)", hs, ""
 				}
+				if p.ContentSum != !m.nocsum {
+					return "Writer: ChecksumOption is not reflected by the frame (persistence across Reset?)", hs, ""
+				}
 			}
 			m.phase = "closed"
 		case op == "reset":
@@ -372,6 +386,10 @@ func writerResetDifferential(hist []int, suffix []int) (sig, what string) {
 				pre = append(pre, lz4.ConcurrencyOption(2))
 			case "apply-legacy":
 				pre = append(pre, lz4.LegacyOption(true))
+			case "apply-nocsum":
+				pre = append(pre, lz4.ChecksumOption(false))
+			case "apply-level1":
+				pre = append(pre, lz4.CompressionLevelOption(lz4.Level1))
 			}
 		case strings.HasPrefix(op, "apply-"):
 			phase = "failed"
@@ -966,7 +984,7 @@ func init() {
 	ev.Register(&ev.Driver{
 		Prop:  "C17",
 		Level: "model_checking",
-		Rule: "explicit-state search over call histories on the real objects: every history up to depth D (quick 4, thorough 5 for the Writer's 11-symbol alphabet {Apply(BlockChecksum), Apply(Size 7), Apply(Concurrency 2), Apply(Legacy), Write 7 bytes, Write B+1 bytes, Write nil, ReadFrom 10 bytes, Flush, Close, Reset(next sink)}; quick 4, thorough 5 for the Reader's 13-symbol alphabet {Apply(Concurrency 2), Read 0/1/5/64K, WriteTo, Size, Reset(src) for six sources: frame with size field, frame with trailing bytes, two concatenated frames, empty, valid dependent-block frame, dependent-block frame reaching before the start}). " +
+		Rule: "explicit-state search over call histories on the real objects: every history up to depth D (quick 4, thorough 5 for the Writer's 13-symbol alphabet {Apply(BlockChecksum), Apply(Size 7), Apply(Concurrency 2), Apply(Legacy), Apply(Checksum false), Apply(Level1), Write 7 bytes, Write B+1 bytes, Write nil, ReadFrom 10 bytes, Flush, Close, Reset(next sink)}; quick 4, thorough 5 for the Reader's 13-symbol alphabet {Apply(Concurrency 2), Read 0/1/5/64K, WriteTo, Size, Reset(src) for six sources: frame with size field, frame with trailing bytes, two concatenated frames, empty, valid dependent-block frame, dependent-block frame reaching before the start}). " +
 			"Each history runs as thread 0 of a controlled-scheduler execution (canonical schedule), so a call that never returns is a deadlock state; every call's results are compared with a reference model; after every Reset every suffix of <= 2 calls is compared with a brand-new object with the same options (differential). distinct_nontrivial = histories executed.",
 		Assumptions: []string{"after any call has returned an error the model only requires that nothing wrong is emitted/delivered until the next Reset",
 			"WriteTo after a partial Read may fail (the implementation refuses it) as long as nothing wrong is delivered",
